@@ -188,6 +188,27 @@ def run_ext(prop, tier, jobs, replay_dir, known_sites, only=None):
     """Harness crates outside rrtk (downstream view of the public macros)."""
     records, violations, cmds = [], [], []
     for ext in K.discover_ext():
+        prs = [q for q in ext.get("probes", []) if prop in q["props"] and (tier == "thorough" or q["tier"] == "quick")
+               and (not only or only in q["name"])]
+        if prs:
+            pres = K.run_ext_probes(ext, prs)
+            cmds.append("cargo check --offline [--cfg <probe>]  (in kani/ext/%s)" % ext["crate"])
+            for q in prs:
+                r = pres[q["name"]]
+                rec = {"name": "%s[ext:%s]" % (q["name"], ext["crate"]), "engine": "rustc", "config": "ext:" + ext["crate"], "harness": q["name"],
+                       "function": "(API surface of rrtk::reference)", "at": "src/reference.rs", "clause": q["meta"].get("clause"),
+                       "seconds": 0.0, "checks": 1, "covers": [], "solver": "rustc type checker",
+                       "status": "discharged" if r["rejected"] else "refuted", "rustc_errors": r["errors"]}
+                if not r["rejected"]:
+                    rec["failed"] = [{"description": "the probe compiles: safe code can write this expression", "function": q["name"]}]
+                    rp = os.path.join(replay_dir, "%s.ext.json" % q["name"])
+                    common.write_json(rp, {"property": prop, "obligation": rec["name"], "engine": "kani-ext", "crate": ext["crate"],
+                                           "probe": q["name"], "probe_cfg": q["cfg"], "failed_checks": rec["failed"],
+                                           "confirmed_on_real_code": True, "cmd": r["cmd"], "output_tail": r["output_tail"],
+                                           "note": "the witness is the probe program itself (kani/ext/%s/src/lib.rs, cfg %s): it type-checks against this tree" % (ext["crate"], q["cfg"])})
+                    rec["replay"] = rp
+                    violations.append({"site": q["name"], "replay": rp, "known": q["name"] in known_sites, "no_input": True, "rec": rec})
+                records.append(rec)
         hs = [h for h in ext["harnesses"] if prop in h["props"] and (tier == "thorough" or h["tier"] == "quick")
               and (not only or only in h["name"])]
         if not hs:
